@@ -116,7 +116,7 @@ class C02(RecorderProp):
             'answered at least one interception; distinct = distinct canonical case')
     OPTS = dict(ALL_OPTS, policies=True, same_script=0.25, play_ratio=0.65, runs=(2, 6), interrupts=True,
                 cassettes=['memory', 'memory', 'file', 's3'])
-    N = {'quick': 300, 'thorough': 12000}
+    N = {'quick': 2500, 'thorough': 30000}
 
     def generate(self, rng, tier):
         return table_cases() + [self.gen_one(rng, tier) for _ in range(self.N[tier])]
